@@ -45,7 +45,7 @@ LEVEL = {
                    "data (run-time values).",
     "technique": "static analysis: finite-domain abstract evaluation (comparison guards; whole aggregations as tables against the executed stdlib), taint and alias dataflow, order algebra",
 }
-LEVEL["decided"] += " (R02.8) reduce, sum, all, any, min, max, list, tuple, set as finite tables by abstract evaluation (378 cells: every truth pattern, every ranking with ties of up to 3 items, with / without key, default, initial, start) against the stdlib function executed on the same symbols; (R02.9) no handler of an aggregation can intercept an exception raised by user code (C06's census, shared)."
+LEVEL["decided"] += " (R02.8) reduce, sum, all, any, min, max, sorted, nlargest, nsmallest, list, tuple, set as finite tables by abstract evaluation (874 cells: every truth pattern, every ranking with ties of up to 3 items, with / without key, default, initial, start) against the stdlib function executed on the same symbols; (R02.9) no handler of an aggregation can intercept an exception raised by user code (C06's census, shared)."
 
 AGGREGATIONS = ["builtins.all", "builtins.any", "builtins.sum", "builtins.min", "builtins.max", "builtins._min_max",
                 "builtins.list", "builtins.tuple", "builtins.set", "builtins.dict", "builtins.sorted",
@@ -80,7 +80,7 @@ def run(ctx) -> None:
             c06._census(sub_ctx, u)
     from . import tooltables
     tooltables.aggregate_tables(ctx, "R02.8")
-    ctx.floor("agg_cells_decided", 300)
+    ctx.floor("agg_cells_decided", 600)
     ctx.floor("guard_cells", 12)
     ctx.floor("aggregations", 15)
     ctx.floor("key_wrappers", 1)
